@@ -4,6 +4,7 @@ from __future__ import annotations
 import io
 import itertools
 
+import numpy as np
 import z3
 
 from symfl import core, install as inst
@@ -134,6 +135,54 @@ def ob_used_engine(vfix, label):
                 o = tf(A[i, 1])
                 claims.append(z3.If(lastnan, ZB(o.nan), z3.And(ZB(o.fin()), o.v == lastv)))
             ob.prove(pre, p, z3.And(*claims), label, ins, rp)
+
+    return run
+
+
+def ob_outputs_only(vfix, label):
+    """only the output columns are exported (input_values=False) and no output depends on the swept inputs (the one rule reads a
+    disabled input variable): still one row per grid point"""
+    def run(ob):
+        fl = install()
+        set_mode("R")
+        R = [(rvar(f"lo{i}"), rvar(f"hi{i}")) for i in range(2)]
+        pre = [lo.v < hi.v for lo, hi in R]
+        ins = {}
+        for i, (lo, hi) in enumerate(R):
+            ins[f"lo{i}"], ins[f"hi{i}"] = lo, hi
+
+        def rbody(v):
+            return "\n".join([f"R = {lit([[v[f'lo{i}'], v[f'hi{i}']] for i in range(2)])}; v = {vfix}",
+                              "ivs = [fl.InputVariable('X%d' % i, minimum=R[i][0], maximum=R[i][1], terms=[fl.Rectangle('a', -1e6, 1e6)]) for i in range(2)]",
+                              "ov = fl.OutputVariable('O', minimum=0, maximum=1, default_value=0.25, defuzzifier=fl.WeightedAverage(), terms=[fl.Constant('a', 0.5)])",
+                              "e = fl.Engine('e', '', ivs, [ov], [])",
+                              "e.rule_blocks.append(fl.RuleBlock('rb', activation=fl.General(), rules=[fl.Rule.create('if X0 is a then O is a', e)]))",
+                              "ivs[0].enabled = False",
+                              "captured = {}",
+                              "import numpy; orig = numpy.savetxt",
+                              "numpy.savetxt = lambda w, T, **kw: captured.update(T=numpy.atleast_2d(numpy.array(T, dtype=float)))",
+                              "try:",
+                              "    fl.FldExporter(input_values=False).write_from_scope(e, None, v, fl.FldExporter.ScopeOfValues.EachVariable, None)",
+                              "finally: numpy.savetxt = orig",
+                              "T = captured['T']",
+                              "verdict(T.shape != (v * v, 1), 'outputs-only table of shape %r for a grid of %d points' % (T.shape, v * v))"])
+
+        rp = replay_fn(PROPERTY, label, rbody, key=None)
+
+        def body():
+            e = tiny_engine(fl, 2, R, disabled=0)
+            e.output_variables[0].default_value = 0.25
+            inst.NP.savetxt_calls.clear()
+            fl.FldExporter(input_values=False).write_from_scope(e, None, vfix, fl.FldExporter.ScopeOfValues.EachVariable, None)
+            T, kw = inst.NP.savetxt_calls[-1]
+            return T
+
+        for p in ob.paths(pre, body):
+            if p.exc is not None:
+                ob.unexpected(pre, p, label, ins, rp)
+                continue
+            A = np.atleast_2d(core._obj(p.result))
+            ob.prove(pre, p, A.shape == (vfix * vfix, 1), f"{label}: table of shape {A.shape}", ins, rp)
 
     return run
 
@@ -433,6 +482,7 @@ def obligations(tier, seed):
     obs.append(("grid/all-variables/n2/inactive0", ob_grid("all", 2, 20, inactive=0, label="grid/all-variables/n2/inactive0")))
     # input variables need not have distinct names (unnamed variables share the name ""): columns are per variable, not per name
     obs.append(("grid/each-variable/n2/same-names", ob_grid("each", 2, 3, label="grid/each-variable/n2/same-names", same_names=True)))
+    obs.append(("grid/outputs-only/disabled0/v3", ob_outputs_only(3, "grid/outputs-only/disabled0/v3")))
     for vfix in (2, 3):
         obs.append((f"grid/used-engine-lock-previous/v{vfix}", ob_used_engine(vfix, f"grid/used-engine-lock-previous/v{vfix}")))
     obs.append(("grid/each-variable/n2/disabled1", ob_grid("each", 2, 3, label="grid/each-variable/n2/disabled1", disabled=1)))
